@@ -752,12 +752,59 @@ func (fr *Frame) enterLoop(lp *Loop, ins []edgeIn) (*State, string) {
 			s1.ghost[g] = c.ghostInit(g)
 		}
 	}
+	// lastresult(Name, k) survives a loop whose body makes no call named Name -- decidable when every call of the body
+	// is a builtin, a library call or a call of a function under contract (nothing is executed inline)
+	keepLastres := map[string]bool{}
+	if !eff.all {
+		closedBody := true
+		called := map[int]bool{}
+		for blk := range lp.body {
+			for _, in := range blk.Instrs {
+				var cc *ssa.CallCommon
+				switch x := in.(type) {
+				case *ssa.Call:
+					cc = x.Common()
+				case *ssa.Go, *ssa.Defer:
+					closedBody = false
+				}
+				if cc == nil {
+					continue
+				}
+				if _, isBuiltin := cc.Value.(*ssa.Builtin); isBuiltin {
+					continue
+				}
+				if f := cc.StaticCallee(); f != nil && !cc.IsInvoke() {
+					if c.eng.inScope(f) && f.Blocks != nil {
+						if ct := c.eng.contractOf(f); ct == nil || ct.Inline || !ct.hasCallSpec() {
+							closedBody = false // executed inline: its own calls are not visible here
+						}
+					}
+				} else if !cc.IsInvoke() {
+					closedBody = false // a call through a function value
+				}
+				called[callNameID(fr.callName(cc, in.Pos()))] = true
+				if q := fr.callQualName(in.Pos()); q != "" {
+					called[callNameID(q)] = true
+				}
+			}
+		}
+		if closedBody {
+			for g := range s1.ghost {
+				if strings.HasPrefix(g, "lastres.") {
+					var id, k int
+					if n, _ := fmt.Sscanf(g, "lastres.%d.%d", &id, &k); n == 2 && !called[id] {
+						keepLastres[g] = true
+					}
+				}
+			}
+		}
+	}
 	for g := range s1.ghost {
 		if strings.HasPrefix(g, "visited.") {
 			if eff.ranges[g] {
 				s1.ghost[g] = c.smt.declareFresh(g, c.ghostSorts[g])
 			}
-		} else if eff.all || eff.ghost[g] || strings.HasPrefix(g, "lastres.") {
+		} else if eff.all || eff.ghost[g] || (strings.HasPrefix(g, "lastres.") && !keepLastres[g]) {
 			s1.ghost[g] = c.smt.declareFresh(g, c.ghostSorts[g])
 		}
 	}
